@@ -1,5 +1,6 @@
 import GoSSE.Proofs.GenEquiv
 import GoSSE.Gen.Fields
+import GoSSE.Model.Message
 /-!
 # The translated construction routes of `messageField` (message_fields.go) compute the model's
 
@@ -46,5 +47,150 @@ theorem NewType_eq (fuel : Nat) (v : Bytes) (hf : v.length < fuel) :
   cases hs : (newMessageField v).2
   · exact ⟨none, by simp [pure, Except.pure], by simp⟩
   · exact ⟨some "invalid event type: %w", by simp [pure, Except.pure, toGenF], by simp⟩
+
+end GoSSE.GenEquiv
+
+namespace GoSSE.GenEquiv
+open GoSSE GoSSE.GoRT GoSSE.Model
+
+/-! ## `Message.appendText` (message.go): the `NextChunk` loop behind `AppendData` / `AppendComment` -/
+
+def gC (c : Chunk) : Gen.chunk := { content := c.content, isComment := c.isComment }
+
+theorem nextChunk_rem_lt' (s : Bytes) (h : s ≠ []) : (nextChunk s).2.1.length < s.length := by
+  have hb := newlineIndex_bound s
+  have hp := newlineIndex_pos s h
+  unfold nextChunk
+  simp only [List.length_drop]
+  have : 0 < s.length := List.length_pos_iff.mpr h
+  omega
+
+/-- the model's chunk list after appending all the strings -/
+def appendAll (isComment : Bool) (strs : List Bytes) (cs : List Chunk) : List Chunk :=
+  strs.foldl (fun cs c => appendLoop isComment c.length c cs) cs
+
+theorem appendText_chunks (m : Message) (isComment : Bool) (strs : List Bytes) :
+    (m.appendText isComment strs).chunks = appendAll isComment strs m.chunks := by
+  unfold Message.appendText appendAll
+  induction strs generalizing m with
+  | nil => rfl
+  | cons c t ih => simp only [List.foldl_cons]; rw [ih]
+
+/-- more fuel than needed changes nothing -/
+theorem appendLoop_fuel (isComment : Bool) : ∀ (m k : Nat) (c : Bytes) (cs : List Chunk), c.length ≤ m →
+    appendLoop isComment (m + k) c cs = appendLoop isComment m c cs := by
+  intro m
+  induction m with
+  | zero =>
+    intro k c cs h
+    have : c = [] := List.length_eq_zero_iff.mp (by omega)
+    subst this
+    cases k <;> simp [appendLoop]
+  | succ m ih =>
+    intro k c cs h
+    have e : m + 1 + k = (m + k) + 1 := by omega
+    rw [e]
+    unfold appendLoop
+    by_cases hc : c = []
+    · simp [hc]
+    · have : c.isEmpty = false := by simpa using hc
+      simp only [this, Bool.false_eq_true, if_false]
+      exact ih k _ _ (by have := nextChunk_rem_lt' c hc; omega)
+
+theorem appendText_loop2_step (fuel : Nat) (isComment : Bool) (e : Gen.Message) (c content : Bytes)
+    (hf : c.length < fuel) :
+    Gen.Message_appendText_loop2 fuel isComment (e, c, content) =
+      .ok (if c = [] then .brk (e, c, content) else
+        .next ({ e with chunks := e.chunks ++ [({ content := (nextChunk c).1, isComment := isComment } : Gen.chunk)] },
+               (nextChunk c).2.1, (nextChunk c).1)) := by
+  unfold Gen.Message_appendText_loop2
+  by_cases hc : c = []
+  · subst hc; simp [pure, Except.pure]
+  · have c1 : (c != ([] : Bytes)) = true := by simpa using hc
+    simp only [c1, if_true, bind, Except.bind, NextChunk_eq fuel c hf, pure, Except.pure, hc, if_false]
+
+theorem appendText_loop2_eq (fuel : Nat) (isComment : Bool) :
+    ∀ (m n : Nat) (c : Bytes) (cs : List Chunk) (e : Gen.Message) (content : Bytes),
+      c.length ≤ m → m < n → c.length < fuel → e.chunks = cs.map gC →
+      ∃ content', loopM (Gen.Message_appendText_loop2 fuel isComment) n (e, c, content) =
+        .ok (.inl ({ e with chunks := (appendLoop isComment m c cs).map gC }, [], content')) := by
+  intro m
+  induction m with
+  | zero =>
+    intro n c cs e content h hn hf he
+    have : c = [] := List.length_eq_zero_iff.mp (by omega)
+    subst this
+    obtain ⟨n', rfl⟩ : ∃ n', n = n' + 1 := ⟨n - 1, by omega⟩
+    refine ⟨content, ?_⟩
+    unfold loopM
+    rw [appendText_loop2_step fuel isComment e [] content hf]
+    simp only [if_true, pure, Except.pure, appendLoop, ← he]
+  | succ m ih =>
+    intro n c cs e content h hn hf he
+    obtain ⟨n', rfl⟩ : ∃ n', n = n' + 1 := ⟨n - 1, by omega⟩
+    by_cases hc : c = []
+    · subst hc
+      refine ⟨content, ?_⟩
+      unfold loopM
+      rw [appendText_loop2_step fuel isComment e [] content hf]
+      simp only [if_true, pure, Except.pure, appendLoop, List.isEmpty_nil, ← he]
+    · have c2 : c.isEmpty = false := by simpa using hc
+      have hrem := nextChunk_rem_lt' c hc
+      obtain ⟨content', h'⟩ := ih n' (nextChunk c).2.1 (cs ++ [⟨(nextChunk c).1, isComment⟩])
+        { e with chunks := e.chunks ++ [({ content := (nextChunk c).1, isComment := isComment } : Gen.chunk)] }
+        (nextChunk c).1 (by omega) (by omega) (by omega) (by simp [he, gC])
+      refine ⟨content', ?_⟩
+      unfold loopM
+      rw [appendText_loop2_step fuel isComment e c content hf]
+      simp only [hc, if_false]
+      rw [h']
+      conv => rhs; unfold appendLoop
+      simp only [c2, Bool.false_eq_true, if_false]
+
+theorem appendText_eq (fuel : Nat) (e : Gen.Message) (isComment : Bool) (strs : List Bytes) (cs : List Chunk)
+    (he : e.chunks = cs.map gC) (hf : ∀ c ∈ strs, c.length + 1 < fuel) (hn : strs.length < fuel) :
+    Gen.Message_appendText fuel e isComment strs =
+      .ok { e with chunks := (appendAll isComment strs cs).map gC } := by
+  have h := loopM_rule (Gen.Message_appendText_loop1 fuel isComment strs)
+    (fun st => ∃ i : Nat, st.1 = (i : Int) ∧ i ≤ strs.length ∧
+      st.2 = { e with chunks := (appendAll isComment (strs.take i) cs).map gC })
+    (fun st => strs.length - st.1.toNat)
+    (fun r => r = .inl ((strs.length : Int), { e with chunks := (appendAll isComment strs cs).map gC }))
+    (by
+      rintro ⟨i', e'⟩ ⟨i, hi, hle, hst⟩
+      simp only at hi hst
+      subst hi; subst hst
+      unfold Gen.Message_appendText_loop1
+      by_cases hlt : i < strs.length
+      · have c1 : ((i : Int) < len strs) := by unfold len; omega
+        have hfc := hf strs[i] (List.getElem_mem hlt)
+        obtain ⟨content', h2⟩ := appendText_loop2_eq fuel isComment strs[i].length fuel strs[i]
+          (appendAll isComment (strs.take i) cs)
+          { e with chunks := (appendAll isComment (strs.take i) cs).map gC } [] (Nat.le_refl _) (by omega) (by omega) rfl
+        simp only [c1, if_true, idx_ok strs i hlt, bind, Except.bind, h2, pure, Except.pure]
+        refine ⟨⟨i + 1, by omega, by omega, ?_⟩, by simp; omega⟩
+        simp only [appendAll, List.take_succ_eq_append_getElem hlt, List.foldl_append, List.foldl_cons, List.foldl_nil]
+      · have c1 : ¬ ((i : Int) < len strs) := by unfold len; omega
+        have : i = strs.length := by omega
+        subst this
+        simp only [c1, if_false, pure, Except.pure, List.take_length])
+    fuel ((0 : Int), e) ⟨0, rfl, by omega, by simp [appendAll, ← he]⟩ (by simpa using hn)
+  obtain ⟨r, hr, hp⟩ := h
+  subst hp
+  unfold Gen.Message_appendText
+  simp only [bind, Except.bind, pure, Except.pure]
+  rw [hr]
+
+theorem AppendData_eq (fuel : Nat) (e : Gen.Message) (strs : List Bytes) (cs : List Chunk)
+    (he : e.chunks = cs.map gC) (hf : ∀ c ∈ strs, c.length + 1 < fuel) (hn : strs.length < fuel) :
+    Gen.Message_AppendData fuel e strs = .ok { e with chunks := (appendAll false strs cs).map gC } := by
+  unfold Gen.Message_AppendData
+  simp only [bind, Except.bind, appendText_eq fuel e false strs cs he hf hn, pure, Except.pure]
+
+theorem AppendComment_eq (fuel : Nat) (e : Gen.Message) (strs : List Bytes) (cs : List Chunk)
+    (he : e.chunks = cs.map gC) (hf : ∀ c ∈ strs, c.length + 1 < fuel) (hn : strs.length < fuel) :
+    Gen.Message_AppendComment fuel e strs = .ok { e with chunks := (appendAll true strs cs).map gC } := by
+  unfold Gen.Message_AppendComment
+  simp only [bind, Except.bind, appendText_eq fuel e true strs cs he hf hn, pure, Except.pure]
 
 end GoSSE.GenEquiv
